@@ -44,6 +44,8 @@ def run(ctx: core.Ctx):
     b2check.run_systematic(ctx, [_small[n] for n in ['traffic', 'two-callers', 'link-drop', 'concurrent-close']], ["C01"], depth=5 if ctx.tier == "thorough" else 3,
                            label="traffic, two-callers, link-drop, concurrent-close", max_runs=60000 if ctx.tier == "thorough" else 6000)
     b2check.run_b2(ctx, jobs_slow, MONS, label="slow (blocking) writes, monitor only", accept=False)
+    b2check.run_b2(ctx, lambda rng, th: [(gen.conn_second_session(rng, "close"), rng.randrange(10 ** 9), rng.choice([0, 3])) for _ in range(3000 if th else 80)], ["C01re"],
+                   label="connect() again on the same object after close() / a lost link: the second session (monitor only)", accept=False)
     b2check.run_b2(ctx, lambda rng, th: [(gen.with_second(rng, gen.conn_traffic(rng, max_threads=2, max_cmds=16)), rng.randrange(10 ** 9), rng.choice([0, 3])) for _ in range(4000 if th else 100)], ["C01two"],
                    label="a second connection with its own traffic alive in the same process (monitor only, first connection judged)", accept=False)
     b2check.run_b2(ctx, jobs_api, MONS, label="YncaApi.send_raw after initialize(), monitor only", accept=False)
